@@ -49,7 +49,7 @@ def cases(tier, seed):
         s["long_item"] = (i % 4 == 1)
         s["kill_item"] = (st in ("leaves", "doone") and i % 7 == 3)  # the worker processing one item is SIGKILLed (OOM killer, segfault)  # one item whose processing outlasts every (dilated) time-out after the queue has drained
         if st == "leaves":
-            s["pyr"] = gens.gen_pyramid(R, maxdepth=4 if tier == "quick" else 5, mindepth=0 if i % 20 == 0 else 1, sub_p=0.35)
+            s["pyr"] = gens.gen_pyramid(R, maxdepth=4 if tier == "quick" else 5, mindepth=0 if i % 20 == 0 else 1, sub_p=0.35, redepth_p=0.15)
         elif st in ("u8", "f16", "doone"):
             s["depth"] = R.choice([1, 2, 3] if tier == "thorough" else [1, 2, 2, 3])
             s["fill"] = R.choice([0.15, 0.5, 1.0])
